@@ -504,7 +504,7 @@ func init() {
 			if tier == "quick" {
 				return n + 6000
 			}
-			return n + 250000
+			return n + 1000000
 		},
 		Rule:        "the first cases replay every committed reference vector (golden/vectors.json: for each recorded tree the library re-inserts the recorded entries and every Store(name, bytes) and the root must equal the recorded ones, and the recorded node set must load back to the recorded contents; every (type, bf, key) layer, every (type, a, b) order result; NewRoot defaults and format names); the remaining cases are differentials on seeded inputs: a random tree persisted by the library vs the node set produced by the independent encoder/hasher/builder (byte for byte, every node), random keys of every built-in type (incl. int8..uint32, extremes) through DefaultLayer and random pairs through DefaultKeyCompare vs the independent implementations; non-trivial = a vector/differential with >= 1 entry (trees) or a non-zero layer (keys); distinct by item",
 		Assumptions: []string{"golden vectors were generated by the library at the pinned commit and cross-checked by python hashlib.blake2b and internal/ref; stability is relative to that commit"},
